@@ -309,7 +309,7 @@ impl Prop for C09 {
     fn budget(tier: Tier) -> Budget {
         match tier {
             Tier::Quick => Budget { cases: 600, shards: 16 },
-            Tier::Thorough => Budget { cases: 6000, shards: 16 },
+            Tier::Thorough => Budget { cases: 30000, shards: 16 },
         }
     }
 
